@@ -37,7 +37,7 @@ Section MoveFrame.
     (r = IErr -> names st src = Some (NFile i0)) /\
     (r = IOk -> exists q j dj, q <> src /\ names st q = Some (NFile j) /\ inodes st j = Some dj /\ ibytes dj = ibytes d0 /\
                                (forall i, names s q <> Some (NFile i)) /\
-                               ((forall x, names s tg <> Some (NLink x)) -> q = tg)).
+                               q = tg).
   Let P : fs -> Prop := fun _ => True.
   Let Q : fs -> io -> nat -> nat -> Prop := fun st r _ _ => mvQ st r.
 
@@ -81,13 +81,13 @@ Section MoveFrame.
   Proof.
     intros Hd. unfold move_copy.
     apply safe_Do_query_eval; [reflexivity|exact I|].
-    rewrite exists_eval_norm. fold tg. destruct (exists_follow st tg) eqn:Hex.
+    rewrite lexists_eval_norm. fold tg. destruct (lexists st tg) eqn:Hex.
     { cbn [safe]. split; [exact I|apply QErr_dirs; auto]. }
     apply (mkdirs_of_safe P Q st); [intros; exact I| |apply dirs_added_refl].
     intros st' r w' nf' Hd'.
     assert (Hd2 : dirs_added s st') by (eapply dirs_added_trans; eauto).
     destruct r as [|e0]; [|cbn [safe]; split; [exact I|apply QErr_dirs; auto]].
-    pose proof (not_exists_no_file st st' tg Hd' Hex) as Hnf.
+    pose proof (not_lexists_no_file st st' tg Hd' Hex) as Hnf.
     cbn [safe]. split; [exact I|]. split; [intros; exact I|].
     intros [ft|] _.
     - rewrite do_call_fault by reflexivity. cbn [fst snd ncall fail_nstate]. rewrite (norm_of_clean src) by auto.
@@ -116,12 +116,13 @@ Section MoveFrame.
           -- rewrite names_set_other by congruence. unfold st2. apply names_create_same.
           -- cbn [inodes set_name]. unfold st2. apply inodes_create_same.
           -- intros i Ei. pose proof (dirs_added_keeps _ _ _ _ Hd2 Ei). congruence.
-          -- intros Hnl. (* the target is not a link, so the dangling chain is the target itself *)
-             assert (Hq' : names st' tg = None).
-             { unfold follow, LINK_FUEL in Fq. fold tg in Fq. cbn [resolve] in Fq.
-               destruct (names st' tg) as [[i| |x]|] eqn:Et; try discriminate; [|reflexivity].
-               exfalso. destruct Hd2 as (Hn2 & _). destruct (Hn2 tg) as [E3|[_ E3]]; [|congruence]. apply (Hnl x). congruence. }
-             fold tg in Fq. rewrite (follow_none _ _ Hq') in Fq. now injection Fq as <-.
+          -- (* nothing is at the target (the check does not follow links), so the new file is the target itself *)
+             assert (Hq' : names st' tg = None \/ names st' tg = Some NDir).
+             { unfold lexists in Hex. destruct (names st tg) eqn:Et; [discriminate|].
+               destruct Hd' as (Hn2 & _). destruct (Hn2 tg) as [E3|[_ E3]]; [left; congruence|right; exact E3]. }
+             fold tg in Fq. destruct Hq' as [Hq'|Hq'].
+             ++ rewrite (follow_none _ _ Hq') in Fq. now injection Fq as <-.
+             ++ rewrite (follow_dir _ _ Hq') in Fq. discriminate.
   Qed.
 
   Lemma move_body_frame w nf :
@@ -131,11 +132,11 @@ Section MoveFrame.
     destruct rn; [|apply move_copy_frame, dirs_added_refl].
     unfold move_rename.
     apply safe_Do_query_eval; [reflexivity|exact I|].
-    rewrite exists_eval_norm. fold tg. destruct (exists_follow s tg) eqn:Hex; [apply move_copy_frame, dirs_added_refl|].
+    rewrite lexists_eval_norm. fold tg. destruct (lexists s tg) eqn:Hex; [apply move_copy_frame, dirs_added_refl|].
     apply (mkdirs_of_safe P Q s); [intros; exact I| |apply dirs_added_refl].
     intros st r w' nf' Hd. destruct r as [|e']; [|apply move_copy_frame; auto].
     destruct (A_src s src i0 d0 Ea Ed st Hd) as (E & Ei & En).
-    pose proof (not_exists_no_file s st tg Hd Hex) as Hnf.
+    pose proof (not_lexists_no_file s st tg Hd Hex) as Hnf.
     apply safe_Do_nocopy; try (intros; discriminate); try reflexivity; try exact I.
     - intros ft. cbn [ok_of]. apply move_copy_frame; auto.
     - assert (Ctg : clean tg) by apply norm_clean.
@@ -162,7 +163,7 @@ Section MoveFrame.
              rewrite names_set_other in Eq by auto.
              destruct (path_eqb_spec src q) as [<-|Hne2]; [rewrite names_set_same in Eq; discriminate|].
              rewrite names_set_other in Eq by auto. auto.
-        * intros _. exists tg, i0, d0. split; [exact Hts|]. split; [now rewrite names_set_same|]. split; [exact Ei|]. split; [reflexivity|]. split; [|auto].
+        * intros _. exists tg, i0, d0. split; [exact Hts|]. split; [now rewrite names_set_same|]. split; [exact Ei|]. split; [reflexivity|]. split; [|reflexivity].
           intros i Ei'. pose proof (dirs_added_keeps _ _ _ _ Hd Ei') as E3. apply (Hnf tg i). apply follow_file. exact E3.
       + (* rename onto a hard link of the same file: impossible here, the target does not resolve to a file *)
         exfalso. rewrite E in En'. injection En' as <-. apply (Hnf tg i0). apply follow_file. congruence.
